@@ -203,6 +203,7 @@ type Chain struct {
 	depForkKey                KeyNum
 	depForkArmed              bool
 	Phase0LeakMix             bool
+	LowBalances               bool
 	CommitteeDropChain        bool
 	wrongTargetIncluded       map[common.Epoch]int
 	epcTag                    string // tag put on untagged epc records (side branches)
